@@ -71,6 +71,30 @@ class MaskedDestination(object):
             raise exc
 
 
+class ClosedFileDestination(MaskedDestination):
+    """A real eliot FileDestination whose file has been closed under it (log rotation that forgot to unregister the old
+    destination): every offer is recorded, then fails the way the closed file makes it fail. Exposes .file like the real thing."""
+
+    def __init__(self, tape, name):
+        import io
+        from eliot import FileDestination
+        MaskedDestination.__init__(self, tape, name, (lambda i: True), None)
+        self.file = io.BytesIO()
+        self._real = FileDestination(file=self.file)
+        self.file.close()
+
+    def __call__(self, message):
+        i = self.calls
+        self.calls += 1
+        self.tape.add("msg", dest=self.name, m=dict(message), call=i, failed=True)
+        try:
+            self._real(message)
+        except Exception as exc:
+            self.failed.append((i, exc))
+            raise
+        raise AssertionError("writing to a closed file did not fail")
+
+
 class RecordingFile(object):
     """File-like object recording write()/flush() calls. mode 'b' accepts bytes only, 't' text only."""
 
